@@ -7,10 +7,11 @@ import (
 	"flag"
 	"fmt"
 	"os"
+	"sync"
 	"time"
 
 	"corebgpverif/harness"
-	_ "corebgpverif/props"
+	"corebgpverif/props"
 )
 
 func main() {
@@ -29,6 +30,8 @@ func main() {
 	seed := fs.Int64("seed", 0, "seed (permutes shard order only)")
 	budget := fs.Duration("budget", 0, "internal time budget")
 	out := fs.String("out", "", "result file")
+	stride := fs.Int("stride", 1, "conformance: every n-th case")
+	par := fs.Int("par", 8, "conformance: concurrent real sessions")
 	fs.Parse(os.Args[3:])
 	switch cmd {
 	case "list":
@@ -63,6 +66,58 @@ func main() {
 		} else {
 			os.Stdout.Write(b)
 			fmt.Println()
+		}
+	case "conform-model":
+		// enumerate the wire cases of the property's check, run this shard's share under vrt
+		type rec struct {
+			props.ConformCase
+			Model props.StimTranscript `json:"model"`
+		}
+		var recs []rec
+		for k, cc := range props.ConformCases(arg, *tier, *stride) {
+			if k%*of != *shard {
+				continue
+			}
+			recs = append(recs, rec{cc, props.ModelTranscript(cc.Case)})
+		}
+		b, _ := json.Marshal(recs)
+		if err := os.WriteFile(*out, b, 0o644); err != nil {
+			fmt.Fprintln(os.Stderr, "ENGINE-ERROR", err)
+			os.Exit(3)
+		}
+	case "conform-real":
+		// arg is a file written by conform-model; run every case on the real runtime over loopback TCP
+		b, err := os.ReadFile(arg)
+		if err != nil {
+			fmt.Fprintln(os.Stderr, "ENGINE-ERROR", err)
+			os.Exit(3)
+		}
+		var cases []props.ConformCase
+		if err := json.Unmarshal(b, &cases); err != nil {
+			fmt.Fprintln(os.Stderr, "ENGINE-ERROR", err)
+			os.Exit(3)
+		}
+		type rec struct {
+			Index int                  `json:"index"`
+			Real  props.StimTranscript `json:"real"`
+		}
+		recs := make([]rec, len(cases))
+		sem := make(chan struct{}, *par)
+		var wg sync.WaitGroup
+		for i, cc := range cases {
+			wg.Add(1)
+			sem <- struct{}{}
+			go func(i int, cc props.ConformCase) {
+				defer wg.Done()
+				recs[i] = rec{cc.Index, props.RealTranscript(cc.Case)}
+				<-sem
+			}(i, cc)
+		}
+		wg.Wait()
+		ob, _ := json.Marshal(recs)
+		if err := os.WriteFile(*out, ob, 0o644); err != nil {
+			fmt.Fprintln(os.Stderr, "ENGINE-ERROR", err)
+			os.Exit(3)
 		}
 	case "replay":
 		b, err := os.ReadFile(arg)
